@@ -169,6 +169,9 @@ def _family(name: str, tier: str) -> t.List[dict]:
             out += programs(n, 1, 1, kinds=('switch', 'oneof'), twice=True)
         # two switches of one consumer that share the switch node and / or a case
         out += programs(5, 2, 2, kinds=('switch',), twice=True)
+    elif name == 'candshared':
+        # role overlap of ONE kind: a one-of candidate that another node also takes as a plain Input
+        out += [sp for sp in _family('overlap', tier) if S.static_tags(sp) == {'oneof.candidate-shared'}]
     elif name == 'overlap':
         for n in range(3, (4 if q else 5) + 1):
             out += programs(n, 1 if n >= 5 else 2, 0, overlap=True, rec_max=1)
